@@ -1,6 +1,7 @@
 package nut11
 
 import (
+	"bytes"
 	"crypto/sha256"
 	"encoding/hex"
 	"encoding/json"
@@ -294,8 +295,17 @@ func DuplicateSignatures(signatures []string) bool {
 }
 
 func HasValidSignatures(hash []byte, signatures []string, Nsigs int, pubkeys []*btcec.PublicKey) bool {
-	pubkeysCopy := make([]*btcec.PublicKey, len(pubkeys))
-	copy(pubkeysCopy, pubkeys)
+	// each public key can only provide one signature, also if it
+	// is repeated in the list (schnorr signatures are for the x-only key)
+	pubkeysCopy := make([]*btcec.PublicKey, 0, len(pubkeys))
+	for _, pubkey := range pubkeys {
+		repeated := slices.ContainsFunc(pubkeysCopy, func(pk *btcec.PublicKey) bool {
+			return bytes.Equal(schnorr.SerializePubKey(pk), schnorr.SerializePubKey(pubkey))
+		})
+		if !repeated {
+			pubkeysCopy = append(pubkeysCopy, pubkey)
+		}
+	}
 
 	validSignatures := 0
 	for _, signature := range signatures {
@@ -307,9 +317,7 @@ func HasValidSignatures(hash []byte, signatures []string, Nsigs int, pubkeys []*
 		for i, pubkey := range pubkeysCopy {
 			if sig.Verify(hash, pubkey) {
 				validSignatures++
-				if len(pubkeysCopy) > 1 {
-					pubkeysCopy = slices.Delete(pubkeysCopy, i, i+1)
-				}
+				pubkeysCopy = slices.Delete(pubkeysCopy, i, i+1)
 				break
 			}
 		}
